@@ -7,6 +7,9 @@ the address region+a, a bare `free` the NULL pointer.
 
 calloc(count, size) with a product that does not fit in size_t is included (the library answers
 NULL since the overflow guard was added; corpus/spool/calloc_overflow.ops).
+
+Sparse observation mode: `obs=sparse` on the constructor line suppresses the content sweep after every
+operation (a third of the histories of every focus); `observe` prints it on demand.
 """
 import itertools
 
@@ -34,10 +37,41 @@ class Sim:
         self.free = self.high = 0
 
 
+def sparsify(hist, step):
+    """the same history in sparse observation mode: obs=sparse on the constructor, an `observe`
+    every `step` operations and one before the destructor"""
+    out = [hist[0] + " obs=sparse"]
+    body, last = hist[1:], []
+    if body and body[-1].split()[0].startswith("destroy"):
+        body, last = body[:-1], [hist[-1]]
+    for i, op in enumerate(body, 1):
+        out.append(op)
+        if i % step == 0:
+            out.append("observe")
+    return out + ["observe"] + last
+
+
+def mix_sparse(hists, rng=None):
+    """roughly a third of the histories in sparse mode"""
+    out = []
+    for i, h in enumerate(hists):
+        if (rng.random() < 1 / 3) if rng is not None else (i % 3 == 1):
+            out.append(sparsify(h, rng.randint(5, 15) if rng is not None else 5 + i % 11))
+        else:
+            out.append(h)
+    return out
+
+
 class SpoolGen:
     name = "spool"
 
     def small_scope(self, tier, focus=None):
+        return mix_sparse(self._small_scope(tier, focus))
+
+    def random(self, rng, n, tier, focus=None):
+        return mix_sparse(self._random(rng, n, tier, focus), rng)
+
+    def _small_scope(self, tier, focus=None):
         out = []
         sizes = (0, 1, 2, 5, 8) if tier == "quick" else tuple(range(0, 41))
         maxlen = 3
@@ -71,7 +105,7 @@ class SpoolGen:
                     emit(N, seq, 1)
         return out
 
-    def random(self, rng, n, tier, focus=None):
+    def _random(self, rng, n, tier, focus=None):
         out = []
         for _ in range(n):
             N = rng.choice([0, 1, 2, 3, 7, 8, 16, 24, 31, 32, 40, 64, 100, 200])
